@@ -600,7 +600,7 @@ class Torrent():
                     file_sizes.append(info['length'])
             if file_sizes:
                 return sum(file_sizes)
-        raise error.PathError(os.path.join(*path), msg='Unknown path')
+        raise error.PathError(os.path.join('', *path), msg='Unknown path')
 
     @property
     def piece_size(self):
